@@ -21,6 +21,7 @@ var (
 	mu        sync.Mutex
 	counters  = map[string]int64{}
 	distinct  = map[uint64]struct{}{}
+	dsets     = map[string]map[uint64]struct{}{}
 	samples   []any
 	seenSig   = map[string]int{}
 	evals     int64
@@ -130,6 +131,21 @@ func Distinct(shape string) {
 	mu.Unlock()
 }
 
+// DistinctIn registers a shape in a named set; the size of each set is reported as observation "distinct:<set>"
+// (e.g. distinct interleavings / completion orders / end states actually seen).
+func DistinctIn(set, shape string) {
+	h := fnv.New64a()
+	h.Write([]byte(shape))
+	mu.Lock()
+	m := dsets[set]
+	if m == nil {
+		m = map[uint64]struct{}{}
+		dsets[set] = m
+	}
+	m[h.Sum64()] = struct{}{}
+	mu.Unlock()
+}
+
 // Sample keeps a few cases written out.
 func Sample(v any) {
 	mu.Lock()
@@ -209,12 +225,18 @@ func Flush() {
 		hs = append(hs, strconv.FormatUint(h, 36))
 	}
 	sort.Strings(hs)
+	ds := map[string][]string{}
+	for name, m := range dsets {
+		for h := range m {
+			ds[name] = append(ds[name], strconv.FormatUint(h, 36))
+		}
+	}
 	sigs := map[string]int{}
 	for k, v := range seenSig {
 		sigs[k] = v
 	}
 	rec := map[string]any{"type": "summary", "evaluations": evals, "counters": counters, "distinct": hs,
-		"samples": samples, "violation_counts": sigs, "inconclusive": inconc,
+		"samples": samples, "distinct_sets": ds, "violation_counts": sigs, "inconclusive": inconc,
 		"wall_s": time.Since(start).Seconds()}
 	mu.Unlock()
 	emit(rec)
